@@ -34,7 +34,15 @@ func genSeqPlan(prop string, seed uint64, thorough bool) *Plan {
 	var items []Item
 	add := func(argv []string) {
 		if wrap && !isTxCmd(argv[0]) {
-			items = append(items, cmdItem("MULTI"), Item{Args: bs(argv...)}, cmdItem("EXEC"))
+			items = append(items, cmdItem("MULTI"), Item{Args: bs(argv...)})
+			if g.chance(5) {
+				// time passes between queueing and EXEC: a queued command takes
+				// effect, and reads the clock, when EXEC runs it
+				d := []int64{int64(150 * time.Millisecond), int64(1200 * time.Millisecond), int64(2500 * time.Millisecond), int64(101 * time.Second)}[g.r.IntN(4)]
+				items = append(items, Item{Op: "adv", N: d})
+				now += d
+			}
+			items = append(items, cmdItem("EXEC"))
 		} else {
 			items = append(items, Item{Args: bs(argv...)})
 		}
